@@ -1,3 +1,4 @@
+mod conn;
 mod driver;
 mod engines;
 mod kit;
